@@ -201,8 +201,13 @@ def r_node_selection(ctx, model):
                     bad.append(f"nv={nv}, order={order}: nodes not in increasing ln V {idx_x}")
                 elif not idx_x:
                     bad.append(f"nv={nv}, order={order}: no node selected")
+                elif len(idx_x) > order:
+                    # the configured order bounds the number of nodes (the sub-sampling exists because polynomial interpolation through
+                    # more nodes is unstable: "pick at most 6 nodes"); an interpolant through more nodes is another configuration's result
+                    bad.append(f"nv={nv}, order={order}: {len(idx_x)} nodes selected, more than the configured order")
+
         ctx.check(not bad, f"{method}: node selection gives distinct, correctly paired nodes in increasing ln V for {n} (volume count, order) pairs", w,
-                  expected="distinct input volumes in increasing ln V, each with its own frequency; no exception", found="; ".join(bad[:4]) or f"{n} pairs as required",
+                  expected="at most `order` distinct input volumes in increasing ln V, each with its own frequency; no exception", found="; ".join(bad[:4]) or f"{n} pairs as required",
                   explanation=f"method {method!r}: for some number of input volumes and configured order the node selection fails or hands the interpolant "
                               f"repeated / wrongly paired / wrongly ordered nodes: the calculation aborts or interpolates the wrong data ({'; '.join(bad[:2])})",
                   key=f"{method}.node-selection")
